@@ -7,12 +7,10 @@ where the evaluator is wrong for IEEE doubles (findings F1–F4) — plus one re
 statement quantified over EVERY call handler is unprovable (reference equality of two fresh
 tables / functions across an effectful sub-expression, `refEqOK`):
 
-* F1/F2 `numEqOK`   — at every `==`/`~=` whose two sides evaluate to numbers `a`, `b`:
-                      darklua's `(a-b).abs() < ε` gives the same answer as the semantics' `N.eq a b`;
+* (F1/F2 — ε-equality of numbers — is FIXED in /repo: `numEqOK` is gone from `h8`)
 * F3    `concatOK`  — at every `..` that is folded: a number operand is formatted by Rust's `to_string`
                       exactly as by the semantics' `N.toStr` (`%.14g`);
-* F4    `interpOK`  — every interpolated value the evaluator cannot determine is already declared
-                      effectful (`tostring` may run `__tostring`);
+* (F4 — an undetermined interpolated value declared pure — is FIXED in /repo: `interpOK` is gone)
 * `refEqOK`         — at every `==`/`~=` whose sides both evaluate to `Table` (or both to `Function`),
                       both sides are declared side-effect free.
 -/
@@ -20,10 +18,6 @@ namespace DarkluaModel.C08
 open DarkluaModel.Evaluator
 
 variable {N : NumOps}
-
-def numEqOK (E : EvalOps N) : LuaValue N → LuaValue N → Bool
-  | .number a, .number b => E.epsEq a b == N.eq a b
-  | _, _ => true
 
 def isStrOrNum : LuaValue N → Bool
   | .number _ | .string _ => true
@@ -52,7 +46,7 @@ mutual
     | .bin op l r =>
       h8 E l && h8 E r &&
         (match op with
-         | .eq | .ne => numEqOK E (evaluate E l) (evaluate E r) && refEqOK E l r
+         | .eq | .ne => refEqOK E l r
          | .concat => concatOK E (evaluate E l) (evaluate E r)
          | _ => true)
     | .un _ e => h8 E e
@@ -71,8 +65,7 @@ mutual
   def h8Segs (E : EvalOps N) : List Seg → Bool
     | [] => true
     | .s _ :: rest => h8Segs E rest
-    | .v e :: rest =>
-      h8 E e && (!isUnknown (evaluate E e) || hasSideEffects E false e) && h8Segs E rest
+    | .v e :: rest => h8 E e && h8Segs E rest
 
   def h8Entries (E : EvalOps N) : List Entry → Bool
     | [] => true
